@@ -508,3 +508,28 @@ def find_guard(view, f, ybb, res):
         return {"fields": [fa, fb], "strict_front_lt_back": strict,
                 "text": "%s(self.%s, self.%s) %s-edge" % (op, fa, fb, "true" if to_yield_when_true else "false")}
     return None
+
+
+def r_wiring_all(ctx, view):
+    """every `impl Iterator` of the crate that is NOT ExactSizeIterator (the ESI ones are R-ESI's): a delegating
+    wrapper forwards each overridden method to the same-named inner method; a self-made one overrides only next/size_hint"""
+    prog = view.prog
+    ctx.cur = view
+    for im in impls_of(prog, IT):
+        T = im["self_desc"]
+        if impl_for(prog, ESI, T) is not None or T.endswith("IterMut"):
+            continue
+        nx = method(prog, im, "next")
+        ctx.anchor("%s::next" % T, nx is not None)
+        dn = delegating_inner(view, nx)
+        for item in im["items"]:
+            if item["kind"] != "Fn":
+                continue
+            m = prog.fn(item["key"])
+            if dn is not None and dn[0].endswith("::next"):
+                d = delegating_inner(view, m)
+                good = d is not None and d[1] == dn[1] and d[0].split("::")[-1] == item["name"] and single_call(m)
+                ctx.ob("R-ESI", "%s:e3:wiring:%s" % (T, item["name"]), good, m.loc(), "forwards to the same-named inner method")
+            else:
+                ctx.ob("R-ESI", "%s:e3:override:%s" % (T, item["name"]), item["name"] in ("next", "size_hint"), m.loc(),
+                       "self-made iterator defines `%s` (only next/size_hint are verifiable)" % item["name"])
